@@ -25,7 +25,7 @@ class Builder:
         vs = self.L.enums.get(enum)
         if vs is None or variant not in vs:
             raise Unsupported(f'enum {enum}::{variant} not found in sources')
-        return Agg(vs.index(variant), payload, enum)
+        return Agg(vs.index(variant), payload, enum)   # the tag keeps the qualified name: it disambiguates same-named enums
 
     def vidx(self, enum, variant):
         vs = self.L.enums.get(enum)
